@@ -1,4 +1,5 @@
 import PikaVerif.Model.Snd
+import PikaVerif.Model.SndRef
 import Driver.Util
 /-!
 Driver for the sequential sender model (C03, engine E0): parses the term of each case, runs the
@@ -214,6 +215,45 @@ def monitors (c : Case) : List String :=
   let v6 := if c.status != "ok" && !crashed then [s!"run ended with status '{c.status}'"] else []
   v1 ++ v2 ++ v3 ++ v4 ++ v5 ++ v6
 
+/-- C03s monitors (independent of the model): the `xl` lines of the harness.
+    * every exception observed at a delivery point (`probe`, `recv`, `after-release`, `ret`, the argument of a
+      let_error callable, the error kept for a let_error body) is a live object of the exception ledger and is
+      the object that was thrown (same address / origin / code / message);
+    * the exception the consumer sees is the one that left the pipeline (same origin), and its code is the code
+      of the `sig error` line;
+    * at the end every exception object has been destroyed exactly once (`xlive=0`, `xctor=xdtor`, `xbad=0`);
+    * nothing reached the probe or the terminal receiver after the terminal receiver destroyed the operation state;
+    * no callable was invoked after its state had been moved away. -/
+def xlMonitors (c : Case) : List String :=
+  let xl := c.lines.filter (·.startsWith "xl ")
+  let crashed := c.status.startsWith "crash"
+  let excs := xl.filter (·.startsWith "xl exc ")
+  let word (l : String) (i : Nat) : String := ((l.splitOn " ")[i]?).getD ""
+  let x1 := excs.filterMap (fun l =>
+    if word l 3 != "alive" || kvOf l "same" != some "1" then
+      some s!"exception at '{word l 2}' is {word l 3} (same={(kvOf l "same").getD "?"}): not the live thrown object [{l}]"
+    else none)
+  let originAt (w : String) : Option String := (excs.find? (fun l => word l 2 == w)).bind (kvOf · "origin")
+  let x2 := match originAt "probe" with
+    | none => []
+    | some o =>
+      (["recv", "after-release", "ret"].filterMap (fun w => match originAt w with
+        | some o' => if o' == o then none else some s!"consumer saw exception origin {o'} at '{w}' but origin {o} left the pipeline"
+        | none => none))
+  let x3 := match excs.find? (fun l => word l 2 == "probe"), c.lines.find? (·.startsWith "sig error ") with
+    | some l, some sg => if kvOf l "code" == some ((sg.drop 10).toString) then [] else [s!"exception ledger code differs from the signalled one: [{l}] vs [{sg}]"]
+    | _, _ => []
+  let x4 := if crashed then [] else
+    match xl.find? (·.startsWith "xl end ") with
+    | none => if xl.isEmpty then [] else ["no 'xl end' line"]
+    | some l =>
+      (if kvOf l "xlive" != some "0" || kvOf l "xbad" != some "0" || kvOf l "xctor" != kvOf l "xdtor" then
+        [s!"exception ledger not balanced (every exception object must be destroyed exactly once): {l}"] else []) ++
+      (if kvOf l "late" != some "0" then [s!"a signal was delivered after the terminal receiver destroyed the operation state: {l}"] else [])
+  let x5 := (xl.filter (·.startsWith "xl late")).map (fun l => s!"delivery after release: {l}")
+  let x6 := (xl.filter (·.startsWith "xl callable-hollow")).map (fun l => s!"callable invoked after its state was moved away: {l}")
+  x1 ++ x2 ++ x3 ++ x4 ++ x5 ++ x6
+
 /-- Reference-interpreter monitor: the signal that left the pipeline must be the denotation of
     the term (the specification), whatever the operational model says. -/
 def denoteMonitor (c : Case) : List String :=
@@ -225,19 +265,52 @@ def denoteMonitor (c : Case) : List String :=
     | _ => []
   | none => []
 
+/-- C03s: the term as a term of the payload-location model `SndRef` (partial inverse of `SndRef.emb`) -/
+def refOf : Term → Option SndRef.RT
+  | .just vs => some (.leaf (.value vs))
+  | .err e => some (.leaf (.error e))
+  | .stop => some (.leaf .stopped)
+  | .thn f p => (refOf p).map (.thn f)
+  | .rs p => (refOf p).map .rs
+  | .dos p => (refOf p).map .dos
+  | .sp p => (refOf p).map .sp
+  | .wa a [b] => match refOf a, refOf b with
+    | some x, some y => some (.wa2 x y)
+    | _, _ => none
+  | _ => none
+
+/-- C03s: for a statically typed case whose term lies in the fragment of `SndRef`, the payload-location model
+    must predict the signal the harness saw, exactly one delivery and no read of a destroyed payload (the
+    harness' `xl exc` / ledger lines are the implementation side of `uaf = false`: see `xlMonitors`). -/
+def refCheck (c : Case) (t : Term) : Option String :=
+  if c.get "static" "0" == "0" then none else
+  match refOf t with
+  | none => none
+  | some rt =>
+    let o := SndRef.run SndRef.Var.pinned rt
+    let sigs := c.lines.filter (·.startsWith "sig ")
+    if o.uaf then some "SndRef: the payload-location model reads a destroyed payload"
+    else if o.log.map (fun s => "sig " ++ showSig s) != sigs then
+      some s!"SndRef: model delivers {o.log.map showSig} but the harness saw {sigs}"
+    else none
+
 def runCase (c : Case) : String :=
-  let mon := monitors c ++ denoteMonitor c
+  -- a static=1 case whose term is not a shape of the pure catalogue is not run by the pure binary
+  if c.lines.contains "xl nomatch" || c.lines.contains "xl nostatic" then
+    s!"case {c.id} accept 0 ; final nomatch ; monitors ok" else
+  let mon := monitors c ++ denoteMonitor c ++ xlMonitors c
   let monS := if mon.isEmpty then "monitors ok" else "monitors FAIL: " ++ " | ".intercalate mon
   let cfg := if c.get "cfg" "fixed" == "pinned" then Cfg.pinned else Cfg.fixed
   match parseTerm (c.get "term"), parseConsumer (c.get "consumer" "recv") with
   | some t, some cons =>
     let (exp, expCrash) := expected cfg cons t
-    let got := c.lines.filter (fun l => !(l.startsWith "ledger "))
+    let got := c.lines.filter (fun l => !(l.startsWith "ledger ") && !(l.startsWith "xl "))
     let crashed := c.status.startsWith "crash"
     -- the operational model and the denotation must agree as well (redundant with the theorem)
     let o := run cfg t
     let selfOk := o.aborted || (o.log == [denote t []] && !o.uaf)
     if !selfOk then s!"case {c.id} reject 0 [model-internal: exec {o.log.map showSig} vs denote {showSig (denote t [])}] ; {monS}"
+    else if let some msg := refCheck c t then s!"case {c.id} reject 0 [{msg}] ; {monS}"
     else if got == exp && crashed == expCrash && (crashed || c.status == "ok") then
       s!"case {c.id} accept {exp.length} ; final {if crashed then "terminated-as-modelled" else "ok"} ; {monS}"
     else
